@@ -57,6 +57,9 @@ theorem C14_max_size (al : Nat) (src : Bytes) (server : Bool) (maxSize : Nat)
       cases m.mask <;> simp <;> omega
     omega
 
+example : parse 0 [0x81, 0x02, 0x68, 0x69, 0xff] false 2 = (.frame true .text (some [0x68, 0x69]), [0xff]) := by
+  decide +kernel
+
 /-! ## frame.rs: strictness decided by the first two bytes -/
 
 /-- **C14_strict_masking**: a frame whose MASK bit does not fit the receiving role is refused as
@@ -74,6 +77,8 @@ theorem C14_strict_masking (al : Nat) (src : Bytes) (server : Bool) (maxSize : N
       cases h : ((src.getD 1 0 &&& 0x80) != 0) <;> simp_all
     rw [parse_of_meta_err al src true maxSize _ (hh.1 hm rfl)]; rfl
 
+example : (2 ≤ ([0x81, 0x01] : Bytes).length) ∧ (([0x81, 0x01] : Bytes).getD 1 0 &&& 0x80 != 0) ≠ true := by decide
+
 /-- **C14_strict_opcode**: opcodes 3–7 and 11–15 are refused as soon as two bytes are there. -/
 theorem C14_strict_opcode (al : Nat) (src : Bytes) (server : Bool) (maxSize : Nat) (h2 : 2 ≤ src.length)
     (hmask : ((src.getD 1 0 &&& 0x80) != 0) = server)
@@ -89,6 +94,9 @@ theorem C14_strict_opcode (al : Nat) (src : Bytes) (server : Bool) (maxSize : Na
     simpa using this
   rw [parse_of_meta_err al src server maxSize _ (hh.2.2 hmask hbad)]
 
+example : (([0x83, 0x80] : Bytes).getD 1 0 &&& 0x80 != 0) = true ∧
+    (([0x83, 0x80] : Bytes).getD 0 0 &&& 0x0F).toNat ∉ [0, 1, 2, 8, 9, 10] := by decide
+
 /-! ## frame.rs: prefix stability -/
 
 /-- **C14_prefix_stable**: an answer other than "need more" is final: more bytes behind the
@@ -99,6 +107,8 @@ theorem C14_prefix_stable (al al' : Nat) (a b : Bytes) (server : Bool) (maxSize 
     (∀ f o p, (parse al a server maxSize).1 = .frame f o p →
       (parse al' (a ++ b) server maxSize).2 = (parse al a server maxSize).2 ++ b) :=
   parse_append al al' a b server maxSize hne
+
+example : (parse 0 [0x81, 0x00] false 10).1 ≠ .needMore := by decide +kernel
 
 /-! ## round trip -/
 
@@ -128,6 +138,10 @@ theorem C14_roundtrip_message (ce cd : Codec) (al al' : Nat) (key : Mask) (m : M
     (hcode : ∀ r, m = .close (some r) → r.code < 65536) :
     ∃ cd', cd.decode al' (bs ++ rest) = (.frame f, cd', rest) ∧ Linked ce' cd' :=
   decode_encode ce cd al al' key m bs rest ce' f hl he hf hmx hn hctl hcode
+
+example : Linked { server := false } { server := true } ∧
+    (Codec.encode { server := false } 0 ⟨1, 2, 3, 4⟩ (.text [0x68])).1 = .ok [0x81, 0x81, 1, 2, 3, 4, 0x69] :=
+  ⟨⟨rfl, rfl⟩, by rfl⟩
 
 /-- **C14_roundtrip**: every sequence of messages offered to a fresh codec of one role — with
 any masking keys — is read by a fresh codec of the other role as exactly the accepted messages,
@@ -230,6 +244,10 @@ theorem C14_strict_control_long (al : Nat) (src : Bytes) (server : Bool) (maxSiz
   · intro h; simp [h, hlong]
   · intro h; simp [h, hlong]
 
+example : ∃ m, parseMetadata ([0x89, 126, 0, 126] ++ List.replicate 126 0) false = .ok m ∧ m.op = .ping ∧ 125 < m.length ∧
+    m.idx + m.length ≤ ([0x89, 126, 0, 126] ++ List.replicate 126 (0 : UInt8)).length :=
+  ⟨⟨4, true, .ping, 126, none⟩, by decide +kernel, rfl, by decide, by decide +kernel⟩
+
 /-- **C14_strict_cont_without_start**: a Continue frame (final or not) outside a fragmented
 message is refused. -/
 theorem C14_strict_cont_without_start (c : Codec) (al : Nat) (src rest : Bytes) (fin : Bool) (pl : Option Bytes)
@@ -237,6 +255,8 @@ theorem C14_strict_cont_without_start (c : Codec) (al : Nat) (src rest : Bytes) 
     (c.decode al src).1 = .err .continuationNotStarted := by
   unfold Codec.decode; rw [hp]; unfold Codec.onFrame
   cases fin <;> simp [hc]
+
+example : parse 0 [0x80, 0x00] false 10 = (.frame true .continue none, []) := by decide +kernel
 
 /-- **C14_strict_start_inside**: a non-final Text/Binary frame inside a fragmented message is
 refused.  (A *final* Text/Binary frame there is delivered as an ordinary message: interleaved
@@ -247,6 +267,8 @@ theorem C14_strict_start_inside (c : Codec) (al : Nat) (src rest : Bytes) (op : 
     (c.decode al src).1 = .err .continuationStarted := by
   unfold Codec.decode; rw [hp]; unfold Codec.onFrame
   rcases hop with h | h <;> subst h <;> simp [hc]
+
+example : parse 0 [0x01, 0x01, 0x61] false 10 = (.frame false .text (some [0x61]), []) := by decide +kernel
 
 /-- O3 (DESIGN §6), kernel-checked on the model: a Close frame with a 126-byte payload is not
 refused but delivered as `Close(None)`. -/
@@ -424,6 +446,9 @@ theorem C14_handshake_accept (req : Req) (r : Resp) (h : handshake req = .ok r) 
     simp only [Except.ok.injEq] at h
     subst h
     exact ⟨rfl, rfl, rfl, rfl, rfl, hashKey_length _⟩
+
+example : (handshake ⟨"GET", [("upgrade", bWebsocket), ("connection", bUpgrade), ("sec-websocket-version", b13),
+    ("sec-websocket-key", [97])]⟩).toBool = true := by decide +kernel
 
 /-- **C14_base64_roundtrip**: the Base64 used for the accept key is injective — a strict decoder
 recovers the 20 hash bytes (and any other byte string) from it. -/
